@@ -25,7 +25,7 @@ import (
 type hxOut = hx.Out
 type hxRng = hx.Rng
 
-var mode = flag.String("mode", "model", "model|e2e|routing|merge|wsend")
+var mode = flag.String("mode", "model", "model|e2e|routing|merge|wsend|wresp")
 
 const tickLinger = 15 * time.Millisecond
 
@@ -168,7 +168,7 @@ func genBatchCase(r *hx.Rng, nextID *int, allowRetry *int) (bcfg, []behaviour, [
 
 func doStreamCase(o *hx.Out, events []string) {
 	in := "1 " + strings.Join(events, ",")
-	res := runStreamCase(events)
+	res := runStreamCase(events, nil)
 	o.Case("stream", in, res, in)
 	o.CountN("stream:obs:ok", strings.Count(res, "=ok"))
 	o.CountN("stream:obs:eof", strings.Count(res, "=eof"))
@@ -639,6 +639,10 @@ func replayLine(o *hx.Out, r *hx.Rng, line string) {
 		doListCase(o, parseChans(t[2]))
 	case "scan":
 		doScanCase(o, parseChans(t[2]))
+	case "wdb":
+		if len(t) >= 5 {
+			doWdbCase(o, splitList(t[3]), parseWdbOps(t[4]))
+		}
 	case "wsend":
 		doWsendCase(o, parseWsend(t[2]))
 	case "shutdown":
@@ -699,6 +703,40 @@ func main() {
 			chans := genScanCase(r, i%5 == 4)
 			doMergeCase(o, r, chans)
 			doScanCase(o, chans)
+		}
+		return
+	}
+	if *mode == "wresp" {
+		// C12 leg: what the client reports for a write is what the shard did with that very write
+		replay := hx.CorpusLines(f.Corpus)
+		if f.Replay != "" {
+			replay = hx.ReadLines(f.Replay)
+		}
+		for _, line := range replay {
+			if strings.HasPrefix(line, "wdb ") || strings.HasPrefix(line, "stream ") || strings.HasPrefix(line, "wsend ") {
+				replayLine(o, r.Fork(), line)
+			}
+		}
+		if f.Replay != "" {
+			return
+		}
+		for _, l := range []string{
+			// the caller of request 1 times out while the server is stalled; request 2 is a conditional put of an absent key
+			"wdb 0 1 s1:1,c1,s2:1,r10,r20,x 1=pa:n;2=pb:7",
+			"wdb 0 1 s1:1,s2:1,c1,s3:1,r10,r20,r30,x 1=pa:-1;2=pa:0+pb:n;3=da:1+pb:1",
+			"stream 0 1 s1:1,c1,s2:1,r10,r20,x",
+			"wsend 0 a1;f14+a9;c13",
+		} {
+			replayLine(o, r.Fork(), l)
+		}
+		zero := 0
+		for i := 0; i < f.N && o.NViol < 30; i++ {
+			ev, ops := genWdbCase(r)
+			doWdbCase(o, ev, ops)
+			doStreamCase(o, genStreamCase(r))
+			if i%4 == 0 {
+				doWsendCase(o, genWsendCase(r, &zero))
+			}
 		}
 		return
 	}
@@ -786,6 +824,7 @@ func main() {
 		"scan 0 k61:1,k63:2|E1001",
 		"scan 0 k612f61:1,k612d622f63:2|k612f63:3",
 		"wsend 0 a1;f14+a9;c106+a3",
+		"wdb 0 1 s1:1,c1,s2:1,r10,r20,x 1=pa:n;2=pb:7",
 		"shutdown 0 0 1000 0 2 1 0 2", // late Add parked in the send when Close comes (K is replaced by the real capacity)
 		"shutdown 0 0 1000 0 2 3 2 0",
 		"shutdown 0 1 3 0 2 2 1 1",
